@@ -17,7 +17,7 @@ import os
 import numpy as np
 import z3
 
-from .sym import (SArr, SBool, SBytes, SF, SInt, SMap, SObj, SOpaque, SReal, SStr,
+from .sym import (arr_elem, SArr, SBool, SBytes, SF, SInt, SMap, SObj, SOpaque, SReal, SStr,
                   Sym, And, F, Not, Or, Z, floordiv, is_sym, kind_of, pymod,
                   real_val, sort_of, to_z3, wrap, forall_idx)
 
@@ -421,7 +421,7 @@ def contains(interp, container, x):
             return False
         return wrap(Or(*parts))
     if isinstance(container, dict):
-        if not eng._has_sym(x):
+        if not eng._has_sym(x) or isinstance(x, SObj):
             try:
                 return x in container
             except TypeError as ex:
@@ -529,6 +529,15 @@ def arr_binop(interp, op, a, b, inplace=False):
     kb = b.kind if isinstance(b, SArr) else kind_of(b)
     if ka is None or kb is None:
         raise eng.Unsupported(f"array op with {type(a).__name__}, {type(b).__name__}")
+    if ka == "elem" and isinstance(a, SArr) and not is_sym(b) and isinstance(b, (int, float)):
+        # elementwise arithmetic on opaque payloads with a literal: uninterpreted
+        from . import npmodel
+        axiom("N-ELEMWISE (arithmetic with a scalar acts on each event payload separately)")
+        fn = npmodel.elem_fn(f"elem_{op}_{b}")
+        r = arr_map(interp, a, lambda e: fn(e), "elem")
+        r.dtype = a.dtype
+        r.item_shape = getattr(a, "item_shape", ())
+        return r
     if "F" in (ka, kb) or "elem" in (ka, kb):
         raise eng.Unsupported("arithmetic on F/opaque arrays")
     if isinstance(a, SArr) and isinstance(b, SArr):
@@ -726,6 +735,11 @@ def norm_index(interp, n, key):
 def getitem(interp, obj, key):
     eng = _engine()
     ctx = interp.ctx
+    if isinstance(obj, dict) and isinstance(key, SObj):
+        try:
+            return obj[key]
+        except KeyError as ex:
+            raise eng.PyRaise(KeyError, ex.args)
     if not eng._has_sym(obj) and not eng._has_sym(key):
         try:
             return obj[key]
@@ -789,7 +803,7 @@ def arr_getitem(interp, obj, key):
     ctx = interp.ctx
     if isinstance(key, (int, SInt, np.integer)):
         kk = norm_index(interp, obj.n, int(key) if isinstance(key, np.integer) else key)
-        return wrap(obj.sel(kk))
+        return arr_elem(obj, kk)
     if isinstance(key, slice):
         a, b = clamp_slice(obj.n, key, ctx)
         if getattr(obj, "is_list", False):
@@ -876,7 +890,8 @@ def mask_select(interp, arr, mask):
 def setitem(interp, obj, key, v):
     eng = _engine()
     ctx = interp.ctx
-    if isinstance(obj, (list, dict)) and not eng._has_sym(key):
+    if isinstance(obj, (list, dict)) and (not eng._has_sym(key) or
+                                          (isinstance(obj, dict) and isinstance(key, SObj))):
         interp.heap_write(obj)
         try:
             obj[key] = v
@@ -1076,6 +1091,8 @@ def sym_attr(interp, obj, name):
             return 1 + len(getattr(obj, "item_shape", ()))
         if name == "dtype":
             return obj.dtype
+        if name == "__class__":
+            return list if getattr(obj, "is_list", False) else np.ndarray
         m = ARR_METHODS.get(name)
         if m is not None:
             return eng.BoundModel(m, obj, name)
@@ -1090,7 +1107,48 @@ def sym_attr(interp, obj, name):
     if isinstance(obj, eng.PyRaiseValue):
         if name == "args":
             return obj.args
+    if isinstance(obj, SOpaque):
+        m = OPAQUE_METHODS.get((getattr(obj, "pytype", None), name))
+        if m is not None:
+            return eng.BoundModel(m, obj, name)
+        if name == "shape" and getattr(obj, "shape", None) is not None:
+            return obj.shape
     return NotImplemented
+
+
+# text lines as opaque values: utf8 / decode are uninterpreted inverse functions,
+# blen = number of bytes, clen = number of characters (clen(s) <= blen(utf8(s)))
+from .sym import Elem as _Elem   # noqa: E402
+utf8 = z3.Function("utf8", _Elem, _Elem)
+utf8dec = z3.Function("utf8dec", _Elem, _Elem)
+blen = z3.Function("blen", _Elem, z3.IntSort())
+clen = z3.Function("clen", _Elem, z3.IntSort())
+OPAQUE_METHODS = {}
+
+
+def text_facts(ctx, e):
+    """facts about one str payload e (S-UTF8): decode inverts encode; a
+    character takes between one and four bytes"""
+    axiom("S-UTF8 (encode/decode inverse; 1..4 bytes per character)")
+    ctx.assume(utf8dec(utf8(e)) == e)
+    ctx.assume(z3.And(clen(e) >= 0, clen(e) <= blen(utf8(e)), blen(utf8(e)) <= 4 * clen(e)))
+
+
+def _op_encode(interp, obj, *a, **k):
+    text_facts(interp.ctx, obj.e)
+    r = SOpaque(utf8(obj.e))
+    r.pytype = bytes
+    return r
+
+
+def _op_decode(interp, obj, *a, **k):
+    r = SOpaque(utf8dec(obj.e))
+    r.pytype = str
+    return r
+
+
+OPAQUE_METHODS[(str, "encode")] = _op_encode
+OPAQUE_METHODS[(bytes, "decode")] = _op_decode
 
 
 def obj_attr(interp, obj, name):
@@ -1175,6 +1233,12 @@ def _len(interp, v):
     if isinstance(v, SObj):
         fn = interp.getattr(v, "__len__", interp.cur_frame)
         return interp.call(fn, [], {}, interp.cur_frame)
+    if isinstance(v, SOpaque) and getattr(v, "pytype", None) is bytes:
+        interp.ctx.assume(blen(v.e) >= 0)
+        return wrap(blen(v.e))
+    if isinstance(v, SOpaque) and getattr(v, "pytype", None) is str:
+        text_facts(interp.ctx, v.e)
+        return wrap(clen(v.e))
     if is_sym(v):
         raise eng.Unsupported(f"len of {type(v).__name__}")
     try:
@@ -1283,6 +1347,11 @@ def sym_isinstance(v, c):
         return c is str
     if isinstance(v, SBytes):
         return c is bytes
+    if isinstance(v, SOpaque):
+        pt = getattr(v, "pytype", None)
+        if pt is None:
+            raise _engine().Unsupported("isinstance of an untyped opaque value")
+        return isinstance(c, type) and issubclass(pt, c)
     if isinstance(v, SMap):
         return c is dict
     if isinstance(v, SObj):
@@ -1385,7 +1454,7 @@ def _str(interp, v=""):
     if isinstance(v, SStr):
         return v
     if isinstance(v, SInt):
-        return SStr(z3.IntToStr(v.e)) if False else SStr(str_of_int(v.e))
+        return SFmt([v])
     raise eng.Unsupported(f"str() of {type(v).__name__}")
 
 
@@ -1541,3 +1610,41 @@ def _np_float(interp, v=0.0):
 
 
 cur_interp = None
+
+
+def str_format(interp, fmt, args, kwargs):
+    eng = _engine()
+    if kwargs or "{" not in fmt:
+        raise eng.Unsupported("str.format with keywords")
+    pieces = fmt.split("{}")
+    if len(pieces) != len(args) + 1 or any("{" in p or "}" in p for p in pieces):
+        raise eng.Unsupported(f"str.format pattern {fmt!r}")
+    parts = []
+    for i, p in enumerate(pieces):
+        if p:
+            parts.append(p)
+        if i < len(args):
+            parts.append(args[i] if is_sym(args[i]) else str(args[i]))
+    return SFmt(parts)
+
+
+def numeric_name(key):
+    """z3 Int term n if key is the decimal name str(n) built from a symbolic int"""
+    if isinstance(key, SFmt) and len(key.parts) == 1 and isinstance(key.parts[0], SInt):
+        return key.parts[0].e
+    if isinstance(key, str) and key.isdigit():
+        return Z(int(key))
+    return None
+
+
+@model(dict)
+def _dict(interp, *args, **kw):
+    eng = _engine()
+    if args and isinstance(args[0], SObj) and args[0].clsname == "H5Attrs":
+        from . import h5model
+        return dict(h5model._attrs_items(interp, args[0]), **kw)
+    if args and isinstance(args[0], (dict, list, tuple)):
+        return dict(args[0], **kw)
+    if not args:
+        return dict(**kw)
+    raise eng.Unsupported("dict() of " + type(args[0]).__name__)
